@@ -573,6 +573,9 @@ func (c *VirtualTable) Insert(ctx context.Context, values map[int]interface{}) (
 		}
 	}
 	dbg("%T %+v\n", key, key)
+	if err := c.checkNotNull(values, true); err != nil {
+		return 0, err
+	}
 	var old *v1proto.Row
 	var new v1proto.Row
 	var ot time.Time
@@ -601,6 +604,26 @@ func (c *VirtualTable) Insert(ctx context.Context, values map[int]interface{}) (
 	return 0, nil
 }
 
+// checkNotNull enforces the NOT NULL declarations of the non-key columns:
+// SQLite does not check declared constraints on virtual tables. An INSERT
+// assigns every column (an unmentioned one is NULL), an UPDATE only the ones
+// it names.
+func (c *VirtualTable) checkNotNull(values map[int]interface{}, insert bool) error {
+	if c.schema == nil {
+		return nil
+	}
+	for i, col := range c.schema.Columns {
+		if !col.NotNull || i == c.KeyCol {
+			continue
+		}
+		v, assigned := values[i]
+		if (assigned && v == nil) || (insert && !assigned) {
+			return ErrS3DBConstraintNotNull
+		}
+	}
+	return nil
+}
+
 func (c *VirtualTable) Update(ctx context.Context, key interface{}, values map[int]interface{}) error {
 	dbg("UPDATE ")
 	if key == nil {
@@ -619,6 +642,9 @@ func (c *VirtualTable) Update(ctx context.Context, key interface{}, values map[i
 	}
 	if !ok || old.Deleted {
 		return nil
+	}
+	if err := c.checkNotNull(values, false); err != nil {
+		return err
 	}
 	// An UPDATE assigns columns; it is not an INSERT. It must leave the time
 	// at which the row was last inserted (or deleted) alone, or it would win
